@@ -470,7 +470,29 @@ def restart_history(world, rnd, nops):
                     del ctrs[c]
 
     def restart_and_sync():
-        ops.append({"op": "Restart", "tag": "restart"})
+        # half of the restarts cut the history in the MIDDLE of a request: the plugin dies while serving a CreateContainer
+        # (the runtime then has no such container), a Stop or a Remove (which take effect in the runtime regardless), and
+        # comes back with one of the cache snapshots it saved during that request
+        if rnd.random() < 0.5:
+            r = rnd.random()
+            live = [c for c, s in ctrs.items() if s in ("created", "running")]
+            if r < 0.5 or not ctrs:
+                create()
+                c = "c%d" % n[1]
+                del ctrs[c]                                    # the creation never completed for the runtime
+            elif r < 0.8 and live:
+                c = rnd.choice(live)
+                ops.append({"op": "Stop", "pod": pod_of[c], "c": c})
+                ctrs[c] = "stopped"
+            else:
+                cs = [c for c, s in ctrs.items() if s == "stopped"]
+                if cs:
+                    c = rnd.choice(cs)
+                    ops.append({"op": "Remove", "pod": pod_of[c], "c": c})
+                    del ctrs[c]
+            ops.append({"op": "RestartMid", "pick": rnd.random(), "tag": "restart-mid"})
+        else:
+            ops.append({"op": "Restart", "tag": "restart"})
         newpods, newctrs = {}, {}
         for c in list(ctrs):
             r = rnd.random()
